@@ -49,7 +49,12 @@ def rstr(r, n, mix):
     while len(out) < n:
         k = r.choice(mix)
         if k == "pair":
-            out += [r.randrange(0xD800, 0xDC00), r.randrange(0xDC00, 0xE000)]
+            hi, lo = r.randrange(0xD800, 0xDC00), r.randrange(0xDC00, 0xE000)
+            # not the noncharacters U+xFFFE / U+xFFFF: a numeric reference to one of them is dropped by html.parser
+            # (false alarm of the html oracle corrected 2026-10-02); XML accepts them, C04 covers them
+            if (lo & 0x3FE) == 0x3FE and (hi & 0x3F) == 0x3F:
+                continue
+            out += [hi, lo]
         else:
             out.append(r.choice(ALPHA[k]))
     return out
@@ -629,7 +634,11 @@ def html_compare(exp, got, allow_ws, escape_urls=True):
                     if (x[1], an) not in HTML4_BOOLEAN or av.lower() != an:
                         return "attribute %s minimised but it is not a boolean attribute with its own name as value: %s vs %s" % (an, x, y)
                 elif bv != av:
-                    if not (escape_urls and (x[1], an) in HTML4_URI and urllib.parse.unquote(bv) == av):
+                    # URI attribute values: non-ASCII characters may be written as %HH of their UTF-8 bytes (XSLT 16.2).
+                    # Both sides are unquoted to bytes, so that text of the original value that already looks like
+                    # %hh is treated alike on both sides (false alarm corrected 2026-10-02: 'http://h/%ca' + U+0100)
+                    if not (escape_urls and (x[1], an) in HTML4_URI and
+                            urllib.parse.unquote_to_bytes(bv.encode("utf-8", "surrogatepass")) == urllib.parse.unquote_to_bytes(av.encode("utf-8", "surrogatepass"))):
                         return "attribute value differs: %s=%r vs %r" % (an, av, bv)
         elif x[0] == "T":
             if (x[1] if not allow_ws else x[1].strip(" \t\r\n")) != (y[1] if not allow_ws else y[1].strip(" \t\r\n")):
